@@ -138,4 +138,54 @@ theorem takePicture_eq (c : Config S) (selfId : Nat) (self : V3 S) (nodes : List
   rw [takePicture_def, foldlM_picStep c self _ (fun p hp => h p (List.mem_filter.mp hp).1)]
   simp [List.filter_filter, Bool.and_comm]
 
+/-! ### several cameras (`Fleet`): what `change_facing` and the constructor change -/
+
+omit [Scalar S] in
+/-- `change_facing` on camera `i` leaves what ANY other camera `j` works with untouched — also when
+    `j` holds the very configuration object `i` writes into: `j` reads only the reach from it. -/
+theorem view_changeFacing_ne (f : Fleet S) (i : Nat) (elev rot : S) (j : Nat) (hj : j ≠ i) :
+    (f.changeFacing i elev rot).view j = f.view j := by
+  have hij : i ≠ j := Ne.symm hj
+  unfold Fleet.changeFacing
+  cases hi : f.cams[i]? with
+  | none => rfl
+  | some cam =>
+    cases hcj : f.cams[j]? with
+    | none => simp [Fleet.view, List.getElem?_modify, hcj]
+    | some camj =>
+      cases hc : f.confs[camj.conf]? with
+      | none => simp [Fleet.view, List.getElem?_modify, hcj, hc, hij]
+      | some c =>
+        by_cases he : cam.conf = camj.conf <;> simp [Fleet.view, hcj, hc, hij, he]
+
+omit [Scalar S] in
+/-- `change_facing` on camera `i` gives camera `i` the new angles and nothing else. -/
+theorem view_changeFacing_eq (f : Fleet S) (i : Nat) (elev rot : S) (selfId : Nat) (c : Config S)
+    (h : f.view i = some (selfId, c)) :
+    (f.changeFacing i elev rot).view i
+      = some (selfId, { c with elevationDeg := elev, rotationDeg := rot }) := by
+  unfold Fleet.changeFacing
+  cases hi : f.cams[i]? with
+  | none => simp [Fleet.view, hi] at h
+  | some cam =>
+    cases hc : f.confs[cam.conf]? with
+    | none => simp [Fleet.view, hi, hc] at h
+    | some c0 =>
+      simp only [Fleet.view, hi, hc, Option.some.injEq, Prod.mk.injEq] at h
+      obtain ⟨h1, h2⟩ := h
+      subst h1 h2
+      simp [Fleet.view, hi, hc]
+
+omit [Scalar S] in
+/-- the constructor: the new camera works with exactly the configuration it was given, the
+    cameras built before are untouched. -/
+theorem view_construct (f : Fleet S) (selfId k : Nat) (c : Config S) (hk : f.confs[k]? = some c) :
+    (f.construct selfId k).view f.cams.length = some (selfId, c) ∧
+    ∀ j, j < f.cams.length → (f.construct selfId k).view j = f.view j := by
+  unfold Fleet.construct
+  rw [hk]
+  refine ⟨?_, fun j hj => ?_⟩
+  · simp [Fleet.view, hk]
+  · simp [Fleet.view, List.getElem?_append_left hj]
+
 end Camera
